@@ -24,6 +24,7 @@ package snapshot
 
 import (
 	"bytes"
+	"crypto/sha256"
 	"encoding/binary"
 	"fmt"
 	"io"
@@ -119,6 +120,7 @@ func (s *c10Src) boundaries() []int {
 	add(1)
 	add(HeaderSizeLen)
 	add(s.hdrEnd)
+	add(s.hdrEnd + 3)
 	off := s.hdrEnd
 	for i, f := range s.files {
 		add(off)
@@ -708,7 +710,7 @@ func TestVerif_C10(t *testing.T) {
 	r := kit.Start(t, "C10", "transfer")
 	defer r.Finish()
 	th := r.Thorough()
-	r.Rule("sources = real Store.Open stream of the newest snapshot of 9 store shapes (512-byte-page databases, distinct content per snapshot) + one full snapshot holding a 64 KiB pseudo-random blob, which zstd cannot shrink (clean deliveries only). targets {second store sink as raft drives it, Restore} x modes {plain, real zstd Compressor -> wire -> real Decompressor}. Clean deliveries (must succeed, identical): every 2-way split at every byte (quick: smallest shape; thorough: all shapes), 3-way splits over all pairs of structural boundary offsets +-1 (thorough: all pairs of offsets on the smallest shape). Mutations (must fail or yield identical content; applied to the wire bytes in compressed mode): every truncation length, every byte: flip (quick bit p%8; thorough all 8 bits), drop, insert (copy of the byte; thorough also 0xFF), 5 trailing extensions, and every header field mutation (format version, each size/crc to 6-13 values, remove/duplicate/swap/append WAL headers, payload kind, unknown field), delivered whole and in ragged chunks (quick: alternating by position). distinct = (target, mode, mutation, region, normalised outcome)")
+	r.Rule("sources = real Store.Open stream of the newest snapshot of 9 store shapes (512-byte-page databases, distinct content per snapshot) + one full snapshot holding a 64 KiB pseudo-random blob, which zstd cannot shrink (clean deliveries only). targets {second store sink as raft drives it, Restore} x modes {plain, real zstd Compressor -> wire -> real Decompressor}. Clean deliveries (must succeed, identical): every 2-way split at every byte (quick: on the smallest shape, structural boundary offsets +-1 elsewhere; thorough: all shapes), 3-way splits (quick: all pairs of boundary offsets on the smallest shape, all pairs of core offsets = prefix end, header end, file starts and middles, last byte, elsewhere; thorough: all pairs of ALL offsets on the smallest shape, enumerated last, and all pairs of boundary offsets elsewhere). Mutations (must fail or yield identical content; applied to the wire bytes in compressed mode): every truncation length, every byte: flip (quick bit p%8; thorough all 8 bits), drop, insert (copy of the byte; thorough also 0xFF), 5 trailing extensions, and every header field mutation (format version, each size/crc to 6-13 values, remove/duplicate/swap/append WAL headers, payload kind, unknown field), delivered whole and in ragged chunks (quick: alternating by position). distinct = (target, mode, mutation, region, normalised outcome)")
 	r.Assume("SQLite (go-sqlite3) is trusted as the content oracle; klauspost zstd is exercised, not modelled")
 	r.Assume("raft's own Size check (n != req.Size -> Cancel) is NOT applied, so the sink and Restore are judged on their own; raft's limiting of the wire reader to Size bytes is exercised on the real transport in part 'transport'")
 
@@ -726,7 +728,7 @@ func TestVerif_C10(t *testing.T) {
 	}
 	srcs = append(srcs, c10BuildIncompressible(t, root))
 	for _, s := range srcs {
-		r.Note("source %s: stream %d bytes, wire %d bytes, %d files", s.name, len(s.stream), len(s.wire), len(s.files))
+		r.Note("source %s: stream %d bytes (sha256 %x), compressed %d bytes, %d files", s.name, len(s.stream), sha256.Sum256(s.stream), len(s.wire), len(s.files))
 	}
 
 	env := &c10Env{r: r, root: filepath.Join(root, "cases")}
